@@ -83,7 +83,11 @@ func report(ck *Check, agg *Agg, tier string, seed int64, verifDir string, wall 
 	sort.Strings(keys)
 	newViol := 0
 	knownHits := map[string]int{}
-	replayDir := filepath.Join(verifDir, "replay")
+	outDir := verifDir
+	if v := os.Getenv("VERIF_OUT"); v != "" { // validation runs against scratch copies must not overwrite the committed evidence
+		outDir = v
+	}
+	replayDir := filepath.Join(outDir, "replay")
 	for _, k := range keys {
 		vs := byKey[k]
 		sort.Slice(vs, func(i, j int) bool { return vs[i].Idx < vs[j].Idx })
@@ -190,9 +194,9 @@ func report(ck *Check, agg *Agg, tier string, seed int64, verifDir string, wall 
 	if ck.Assumptions == nil {
 		ev["assumptions"] = []string{}
 	}
-	os.MkdirAll(filepath.Join(verifDir, "evidence"), 0o755)
+	os.MkdirAll(filepath.Join(outDir, "evidence"), 0o755)
 	b, _ := json.MarshalIndent(ev, "", " ")
-	os.WriteFile(filepath.Join(verifDir, "evidence", ck.ID+".json"), append(b, '\n'), 0o644)
+	os.WriteFile(filepath.Join(outDir, "evidence", ck.ID+".json"), append(b, '\n'), 0o644)
 
 	fmt.Printf("SUMMARY property=%s tier=%s seed=%d cases=%d/%d distinct_nontrivial=%d violations=%d known_findings=%d inconclusive=%d wall=%.1fs\n",
 		ck.ID, tier, seed, agg.Evaluations, n, len(agg.Digests), newViol, len(knownHits), len(agg.Inconclusive), wall.Seconds())
